@@ -1,14 +1,19 @@
 """Contracts for src/op_mode.rs (RFC 9180 §5 Table 1, §5.1 VerifyPSKInputs / default psk)."""
 
+TRAIT_SPEC = '''
+    open spec fn m_mode(&self) -> u8 { self.mode_byte() }
+    open spec fn m_psk(&self) -> Bytes { self.psk_bytes() }
+    open spec fn m_psk_id(&self) -> Bytes { self.psk_id_bytes() }
+'''
 MODE_SPEC = '''
     /// ghost: RFC 9180 §5 Table 1 and the §5.1 defaults
-    open spec fn m_mode(&self) -> u8 {
+    pub open spec fn mode_byte(&self) -> u8 {
         match self { %(T)s::Base => MODE_BASE(), %(T)s::Psk(..) => MODE_PSK(), %(T)s::Auth(..) => MODE_AUTH(), %(T)s::AuthPsk(..) => MODE_AUTH_PSK() }
     }
-    open spec fn m_psk(&self) -> Bytes {
+    pub open spec fn psk_bytes(&self) -> Bytes {
         match self { %(T)s::Psk(b) => b.v_psk(), %(T)s::AuthPsk(_, b) => b.v_psk(), _ => Bytes::empty() }
     }
-    open spec fn m_psk_id(&self) -> Bytes {
+    pub open spec fn psk_id_bytes(&self) -> Bytes {
         match self { %(T)s::Psk(b) => b.v_psk_id(), %(T)s::AuthPsk(_, b) => b.v_psk_id(), _ => Bytes::empty() }
     }
 '''
@@ -31,14 +36,24 @@ def apply(F):
 
     F.wrap([], r"pub enum OpModeR<'a, Kem: KemTrait>")
     F.contract([r"impl<Kem: KemTrait> OpModeR<'_, Kem>"], r'fn get_pk_sender_id\b', ret='r', clauses='''
-        ensures /*@C08 C02*/ r == (match self { OpModeR::Auth(pk) => Some(pk), OpModeR::AuthPsk(pk, _) => Some(pk), _ => None::<&Kem::PublicKey> }),
+        ensures /*@C08 C02*/ r == self.sender_pk(),
 ''')
-    F.wrap([], r"impl<Kem: KemTrait> OpModeR<'_, Kem>")
+    F.insert_in([], r"impl<Kem: KemTrait> OpModeR<'_, Kem>", '''
+    /// ghost: RFC 9180 §5.1.3/§5.1.4: pkS is an input exactly in the Auth and AuthPsk modes
+    pub open spec fn sender_pk(&self) -> Option<&Kem::PublicKey> {
+        match self { OpModeR::Auth(pk) => Some(pk), OpModeR::AuthPsk(pk, _) => Some(pk), _ => None }
+    }
+''')
     F.wrap([], r"pub enum OpModeS<'a, Kem: KemTrait>")
     F.contract([r"impl<Kem: KemTrait> OpModeS<'_, Kem>"], r'fn get_sender_id_keypair\b', ret='r', clauses='''
-        ensures /*@C08 C02*/ r == (match self { OpModeS::Auth(kp) => Some((&kp.0, &kp.1)), OpModeS::AuthPsk(kp, _) => Some((&kp.0, &kp.1)), _ => None::<(&Kem::PrivateKey, &Kem::PublicKey)> }),
+        ensures /*@C08 C02*/ r == self.sender_keypair(),
 ''')
-    F.wrap([], r"impl<Kem: KemTrait> OpModeS<'_, Kem>")
+    F.insert_in([], r"impl<Kem: KemTrait> OpModeS<'_, Kem>", '''
+    /// ghost: RFC 9180 §5.1.3/§5.1.4: skS is an input exactly in the Auth and AuthPsk modes
+    pub open spec fn sender_keypair(&self) -> Option<(&Kem::PrivateKey, &Kem::PublicKey)> {
+        match self { OpModeS::Auth(kp) => Some((&kp.0, &kp.1)), OpModeS::AuthPsk(kp, _) => Some((&kp.0, &kp.1)), _ => None }
+    }
+''')
 
     T = [r'pub\(crate\) trait OpMode<Kem: KemTrait>']
     F.contract(T, r'fn mode_id\b', ret='r', clauses='        ensures /*@C02 C07 C08 C15*/ r == self.m_mode()')
@@ -54,5 +69,8 @@ def apply(F):
         I = [r"impl<Kem: KemTrait> OpMode<Kem> for %s<'_, Kem>" % t]
         for fn in ('mode_id', 'get_psk_bytes', 'get_psk_id'):
             F.contract(I, r'fn %s\b' % fn, ret='r')
-        F.insert_in([], I[0], MODE_SPEC % {'T': t})
+        F.insert_in([], I[0], TRAIT_SPEC)
+        F.insert_in([], r"impl<Kem: KemTrait> %s<'_, Kem>" % t, MODE_SPEC % {'T': t})
         F.wrap([], I[0])
+    F.wrap([], r"impl<Kem: KemTrait> OpModeR<'_, Kem>")
+    F.wrap([], r"impl<Kem: KemTrait> OpModeS<'_, Kem>")
